@@ -9,7 +9,9 @@ import (
 	"fmt"
 	"hash/fnv"
 	"net"
+	"strconv"
 	"sync"
+	"syscall"
 	"sync/atomic"
 	"time"
 
@@ -100,7 +102,55 @@ type Srv struct {
 	lis      net.Listener
 	done     chan struct{} // closed when the current incarnation stops
 	entered  atomic.Int64
+	resv     int // fd of a bound, non-listening socket that keeps the port while the server is down (-1: none)
 }
+
+// reserve binds (without listening) the server's address so that nobody else gets the port
+// while the server is down; connection attempts are refused meanwhile.
+func (s *Srv) reserve() {
+	host, portStr, err := net.SplitHostPort(s.Addr)
+	if err != nil {
+		return
+	}
+	port, _ := strconv.Atoi(portStr)
+	ip := net.ParseIP(host).To4()
+	if ip == nil {
+		return
+	}
+	fd, err := syscall.Socket(syscall.AF_INET, syscall.SOCK_STREAM, 0)
+	if err != nil {
+		return
+	}
+	syscall.SetsockoptInt(fd, syscall.SOL_SOCKET, syscall.SO_REUSEADDR, 1)
+	sa := &syscall.SockaddrInet4{Port: port}
+	copy(sa.Addr[:], ip)
+	for i := 0; i < 50; i++ {
+		if err = syscall.Bind(fd, sa); err == nil {
+			break
+		}
+		time.Sleep(time.Millisecond)
+	}
+	if err != nil {
+		syscall.Close(fd)
+		return
+	}
+	s.mu.Lock()
+	s.resv = fd
+	s.mu.Unlock()
+}
+
+func (s *Srv) unreserve() {
+	s.mu.Lock()
+	fd := s.resv
+	s.resv = -1
+	s.mu.Unlock()
+	if fd >= 0 {
+		syscall.Close(fd)
+	}
+}
+
+// Release frees the port reservation of a stopped server (teardown).
+func (s *Srv) Release() { s.unreserve() }
 
 // DefaultBehaviour replies at once.
 func DefaultBehaviour(c *HCall) (*puppet.Rep, error) {
@@ -112,7 +162,7 @@ func DefaultBehaviour(c *HCall) (*puppet.Rep, error) {
 
 // NewSrv creates a server listening on addr ("127.0.0.1:0" for any port).
 func NewSrv(index int, nodeID uint32, addr string, pure bool, opts ...gorums.ServerOption) (*Srv, error) {
-	s := &Srv{Index: index, NodeID: nodeID, Pure: pure, Opts: opts, conns: map[context.Context]*ConnInfo{}}
+	s := &Srv{Index: index, NodeID: nodeID, Pure: pure, Opts: opts, conns: map[context.Context]*ConnInfo{}, resv: -1}
 	b := Behaviour(DefaultBehaviour)
 	s.behave.Store(&b)
 	lis, err := net.Listen("tcp", addr)
@@ -148,6 +198,7 @@ func (s *Srv) Stop() {
 	if gs != nil {
 		close(done)
 		gs.Stop()
+		s.reserve()
 	}
 }
 
@@ -162,6 +213,7 @@ func (s *Srv) Running() bool {
 func (s *Srv) Restart() error {
 	var lis net.Listener
 	var err error
+	s.unreserve()
 	for i := 0; i < 50; i++ {
 		lis, err = net.Listen("tcp", s.Addr)
 		if err == nil {
